@@ -48,12 +48,13 @@ Qed.
 Lemma stopped_remove_task E t s : stopped (remove_task E t s) = stopped s.
 Proof. reflexivity. Qed.
 
-Lemma stopped_collect E n vals nss s :
-  stopped (snd (collect_completed E n (vals, nss, s))) = stopped s.
+Lemma stopped_collect E oo n vals nss s :
+  stopped (snd (collect_completed E oo n (vals, nss, s))) = stopped s.
 Proof.
   unfold collect_completed.
   apply (fold_pres (fun st : list N * list N * state => stopped (snd st) = stopped s)); [|reflexivity].
-  intros [[v x] s'] t H. cbn in H |- *. destruct (aget t (tnodes s')); exact H.
+  intros [[v x] s'] t H. cbn [snd] in H |- *.
+  destruct (oo && existsb (fun g => ahas g (gnodes s')) (tgroups E t)); destruct (aget t (tnodes s')); exact H.
 Qed.
 
 Lemma stopped_prune E flush : forall fuel gs ne vals nss s,
@@ -65,10 +66,10 @@ Proof.
     intros [[[ne' v'] x'] s'] g H. cbn in H.
     destruct (aget g (gnodes s')) as [n|]; [|exact H].
     destruct (gn_pending n); [|exact H].
-    destruct flush; [destruct (gn_children n) as [|c cs]|].
-    + rewrite IH. exact H.
-    + pose proof (stopped_collect E n v' x' (set_gnodes (adel g (gnodes s')) s')) as Hc.
-      destruct (collect_completed E n _) as [[v1 x1] s2]. rewrite IH. cbn in Hc. rewrite Hc. exact H.
+    destruct flush.
+    + pose proof (stopped_collect E (match gn_children n with [] => true | _ :: _ => false end) n v' x'
+                    (set_gnodes (adel g (gnodes s')) s')) as Hc.
+      destruct (collect_completed E _ n _) as [[v1 x1] s2]. rewrite IH. cbn in Hc. rewrite Hc. exact H.
     + rewrite IH. exact H.
 Qed.
 
@@ -91,8 +92,8 @@ Qed.
 Lemma stopped_finish E g n s : stopped (snd (finish_group_success E g n s)) = stopped s.
 Proof.
   unfold finish_group_success.
-  pose proof (stopped_collect E n [] [] (set_gnodes (adel g (gnodes s)) s)) as H1.
-  destruct (collect_completed E n _) as [[v0 n0] s2].
+  pose proof (stopped_collect E false n [] [] (set_gnodes (adel g (gnodes s)) s)) as H1.
+  destruct (collect_completed E false n _) as [[v0 n0] s2].
   pose proof (stopped_prune E true (S (length (gnodes s2))) (gn_children n) [] v0 n0 s2) as H2.
   destruct (prune _ E true _ _) as [[[ngs vals] nss] s3]. cbn in *. congruence.
 Qed.
@@ -121,12 +122,23 @@ Proof.
   cbn in H4 |- *. rewrite stopped_start_new_work. exact H4.
 Qed.
 
+Lemma stopped_rescue E g n s : stopped (snd (rescue E g n s)) = stopped s.
+Proof.
+  unfold rescue.
+  apply (fold_pres (fun st : list N * state => stopped (snd st) = stopped s)); [|reflexivity].
+  intros [v s'] t H. cbn [snd] in H |- *. destruct (aget t (tnodes s')) as [tn|]; [|exact H].
+  destruct (tn_owed tn && tn_done tn && _); exact H.
+Qed.
+
 Lemma stopped_task_failure E t s : stopped (snd (task_failure E t s)) = stopped s.
 Proof.
   unfold task_failure.
   apply (fold_pres (fun st : list wqevent * state => stopped (snd st) = stopped s)); [|reflexivity].
   intros [evs s'] g H. cbn [snd] in H. destruct (aget g (gnodes s')) as [n|]; [|exact H].
-  cbn [snd]. unfold remove_group_top. cbn [set_roots stopped]. rewrite stopped_remove_group. exact H.
+  assert (Hr : stopped (snd (if memN g (roots s') then rescue E g n s' else ([], s'))) = stopped s').
+  { destruct (memN g (roots s')); [apply stopped_rescue|reflexivity]. }
+  destruct (if memN g (roots s') then rescue E g n s' else ([], s')) as [vals sr]. cbn [snd] in Hr |- *.
+  unfold remove_group_top. cbn [set_roots stopped]. rewrite stopped_remove_group. congruence.
 Qed.
 
 Lemma stopped_stream_items E x n b s : stopped (snd (stream_items E x n b s)) = stopped s.
@@ -172,7 +184,7 @@ Lemma finish_no_term E g n s :
   no_term (fst (fst (fst (finish_group_success E g n s)))) = true.
 Proof.
   unfold finish_group_success.
-  destruct (collect_completed E n ([], [], set_gnodes (adel g (gnodes s)) s)) as [[v0 n0] s2].
+  destruct (collect_completed E false n ([], [], set_gnodes (adel g (gnodes s)) s)) as [[v0 n0] s2].
   destruct (prune _ E true (gn_children n) ([], v0, n0, s2)) as [[[ngs vals] nss] s3].
   cbn. destruct vals; reflexivity.
 Qed.
@@ -201,7 +213,8 @@ Proof.
   apply (fold_pres (fun st : list wqevent * state => no_term (fst st) = true)); [|reflexivity].
   intros [evs s'] g Hn. cbn [fst] in Hn.
   destruct (aget g (gnodes s')) as [n|]; [|exact Hn].
-  cbn [fst]. rewrite no_term_app, Hn. reflexivity.
+  destruct (if memN g (roots s') then rescue E g n s' else ([], s')) as [vals sr].
+  cbn [fst]. rewrite !no_term_app, Hn. destruct vals; reflexivity.
 Qed.
 
 Lemma stream_items_no_term E x n b s : no_term (fst (stream_items E x n b s)) = true.
